@@ -170,7 +170,7 @@ def check(prop, tier, update_baseline=False, only=None, procs=16):
             assumptions.add("callee used through its contract: " + n)
     # ---- baseline: every obligation proved on the unchanged tree must still exist and be proved
     missing = []
-    if baseline and not only:
+    if baseline and not only and not update_baseline:
         for key in baseline["proved"]:
             if key not in seen_keys:
                 missing.append(key)
